@@ -9,4 +9,5 @@ pub mod trace;
 pub mod httpref;
 pub mod web;
 pub mod appgen;
+pub mod tuples_gen;
 pub mod engines;
